@@ -2,9 +2,18 @@
 // virtual clocks (monotonic and system); one op per loop pass; prints every callback (`F j en=…`), the
 // return values of the calls the callback made (`R …`) and the isEnabled() vector after every op.
 // Format matches lean/Driver/C02.lean (trace acceptor).
+// Round 3: intervals up to 2^62 ms, clock jumps up to 9*10^12 ms, `idle d` (the loop really goes to sleep: no pending
+// next-function; the interposed epoll_wait/select prints the timeout it was given as a `W` line, advances the clock by d
+// and wakes the loop with no descriptor ready), and wide cases (`wnew/winit/wen/wdis/wdel`: flat TimerEvents with ANY
+// signed 64-bit millisecond count, tied to the width-faithful model lean/TboxModel/C02/Wide.lean).
 #include "vh.h"
 #include "vtime.h"
-#include "loopdrv.h"
+#include <dlfcn.h>
+#include <unistd.h>
+#include <cerrno>
+#include <sys/epoll.h>
+#include <sys/select.h>
+#include <functional>
 #include <memory>
 #include <tbox/event/loop.h>
 #include <tbox/event/timer_event.h>
@@ -14,7 +23,9 @@
 using namespace tbox::event;
 
 // one call of a callback script; `sub` = the script of the timer created by n[...] / a<ms>[...] / v<ms>[...]
-struct Act { char kind; size_t j; uint64_t ms; bool oneshot; std::vector<Act> sub; };
+struct Act { char kind; size_t j; uint64_t ms; bool oneshot; std::vector<Act> sub; int64_t sms = 0; bool wide = false; };
+static const uint64_t MAXMS = 4611686018427387904ULL;      // 2^62
+static const uint64_t CLOCKMAX = 7000000000000ULL;         // ms; both virtual clocks are int64 counts of nanoseconds (system clock starts at 1.7e12 ms)
 static std::vector<TimerEvent*> objs;          // plain TimerEvents (nullptr = destroyed, or a TimerPool-owned timer)
 static std::vector<char> pool_kind;            // 0 = plain object, 'a' = TimerPool::doAfter/doAt, 'e' = TimerPool::doEvery
 static std::vector<bool> pool_alive;
@@ -44,7 +55,12 @@ static int pool_cancel(size_t j) {
 
 static std::string run_script(const std::vector<Act> &sc);
 
+static long pass_callbacks = 0;                 // callbacks since the last scripted step (= in one pass of handleExpiredTimers)
 static void on_callback(size_t id) {
+    if (++pass_callbacks > 20000) {             // a pass that never ends (legitimate passes of the generator stay below 2000)
+        std::cout << "X runaway pass: more than 20000 callbacks without leaving handleExpiredTimers" << std::endl;
+        _exit(96);
+    }
     if (pool_kind[id] == 'a') pool_alive[id] = false;   // a doAfter timer is gone once it has fired
     std::cout << "F " << id << " en=" << bits() << "\n";
     std::vector<Act> sc = scripts[id];                  // copy: the script table may grow while it runs
@@ -86,7 +102,7 @@ static int apply(const Act &a) {
     if (a.j >= objs.size() || objs[a.j] == nullptr) return 0;   // dead or unknown object: no-op (model: alive = false)
     TimerEvent *t = objs[a.j];
     switch (a.kind) {
-        case 'i': return t->initialize(std::chrono::milliseconds(a.ms), a.oneshot ? Event::Mode::kOneshot : Event::Mode::kPersist);
+        case 'i': return t->initialize(std::chrono::milliseconds(a.wide ? a.sms : (int64_t)a.ms), a.oneshot ? Event::Mode::kOneshot : Event::Mode::kPersist);
         case 'e': return t->enable();
         case 'd': return t->disable();
         case 'x': delete t; objs[a.j] = nullptr; return 1;
@@ -104,7 +120,7 @@ static std::string run_script(const std::vector<Act> &sc) {
 static bool take_nat(const std::string &w, size_t &p, uint64_t &v) {
     size_t b = p; v = 0;
     while (p < w.size() && w[p] >= '0' && w[p] <= '9') { v = v * 10 + (uint64_t)(w[p] - '0'); ++p; }
-    return p > b && p - b <= 18;
+    return p > b && p - b <= 19;
 }
 static bool p_items(const std::string &w, size_t &p, bool has_self, size_t self, bool pl, std::vector<Act> &out);
 static bool p_nested(const std::string &w, size_t &p, bool pl, std::vector<Act> &out) {
@@ -124,7 +140,7 @@ static bool p_item(const std::string &w, size_t &p, bool has_self, size_t self, 
         case 'c': if (!pl || !take_nat(w, p, n)) return false; a.j = n; return true;
         case 'z': return pl;
         case 'a': case 'v':
-            if (!pl || !take_nat(w, p, n) || n < 1 || n > 100000) return false;
+            if (!pl || !take_nat(w, p, n) || n < 1 || n > MAXMS) return false;
             a.ms = n; return p_nested(w, p, pl, a.sub);
         case 'n': if (pl) return false; return p_nested(w, p, pl, a.sub);
         case 'e': case 'd': if (pl || !take_nat(w, p, n)) return false; a.j = n; return true;
@@ -137,7 +153,7 @@ static bool p_item(const std::string &w, size_t &p, bool has_self, size_t self, 
             a.j = n;
             if (p >= w.size() || w[p] != ':') return false;
             ++p;
-            if (!take_nat(w, p, n) || n < 1) return false;
+            if (!take_nat(w, p, n) || n < 1 || n > MAXMS) return false;
             a.ms = n;
             if (p + 1 >= w.size() || w[p] != ':' || (w[p + 1] != 'o' && w[p + 1] != 'p')) return false;
             a.oneshot = (w[p + 1] == 'o'); p += 2;
@@ -176,8 +192,52 @@ static void reset_all() {
     if (pool) pool->cleanup();
     for (auto *&t : objs) { delete t; t = nullptr; }
     objs.clear(); scripts.clear(); pool_kind.clear(); pool_alive.clear(); pool_tok.clear(); mode = 0;
+    vt::enable(1000, 1700000000000LL);          // every case starts at the same clock readings (the models count from there)
     wall0 = vt::wall_ms();
 }
+
+// ---- one scripted step per loop pass, driven from inside the loop (as harness/loopdrv.h), plus `idle` passes ----
+static std::function<int()> g_step;            // 0 = script finished, 1 = go on (re-post), 2 = go idle (the wait re-posts)
+static bool idle_armed = false;
+static bool idle_eintr = false;                // `idlex`: the wait is interrupted by a signal (-1 / EINTR) instead of timing out
+static int64_t idle_adv = 0;
+static void post_step();
+static void step_once() {
+    int r = g_step();
+    if (r == 0) loop->exitLoop();
+    else if (r == 1) post_step();
+}
+static void post_step() { loop->runNext([] { step_once(); }, "verif-driver"); }
+static void idle_wake() { idle_armed = false; vt::advance_ms(idle_adv); post_step(); }
+
+extern "C" int epoll_wait(int epfd, struct epoll_event *evs, int maxevents, int timeout) {
+    typedef int (*fn_t)(int, struct epoll_event *, int, int);
+    static fn_t real = (fn_t)dlsym(RTLD_NEXT, "epoll_wait");
+    if (idle_armed) {                           // the loop sleeps: report the timeout, let virtual time pass, nothing is ready
+        std::cout << "W epoll " << timeout << "\n";
+        idle_wake();
+        if (idle_eintr) { errno = EINTR; return -1; }
+        return 0;
+    }
+    return real(epfd, evs, maxevents, timeout);
+}
+extern "C" int select(int nfds, fd_set *r, fd_set *w, fd_set *e, struct timeval *tv) {
+    typedef int (*fn_t)(int, fd_set *, fd_set *, fd_set *, struct timeval *);
+    static fn_t real = (fn_t)dlsym(RTLD_NEXT, "select");
+    if (idle_armed) {
+        if (tv) std::cout << "W select " << (long long)tv->tv_sec << " " << (long long)tv->tv_usec << "\n";
+        else std::cout << "W select null\n";
+        if (r) FD_ZERO(r);
+        if (w) FD_ZERO(w);
+        if (e) FD_ZERO(e);
+        idle_wake();
+        if (idle_eintr) { errno = EINTR; return -1; }
+        return 0;
+    }
+    return real(nfds, r, w, e, tv);
+}
+
+static bool digits_ok(const std::string &s) { return !s.empty() && s.size() <= 19; }
 
 int main(int argc, char **argv) {
     LogOutput_Disable();
@@ -189,34 +249,38 @@ int main(int argc, char **argv) {
     engine = next_engine;
     loop = Loop::New(engine);
     pool = new tbox::eventx::TimerPool(loop);
-    vh::LoopDriver drv(loop);
     bool pending_adv = false;
-    drv.step = [&]() -> bool {
+    std::string pending_line;       // wide ops: the report line is printed after the pass that follows the op (a negative or zero
+                                    // interval is due at once: the callbacks of that pass come first, as for `adv`)
+    g_step = [&]() -> int {
+        pass_callbacks = 0;
         if (pending_adv) { std::cout << "P ret=1 en=" << bits() << "\n"; pending_adv = false; }
+        if (!pending_line.empty()) { std::cout << pending_line; pending_line.clear(); }
         std::string line;
-        if (!std::getline(std::cin, line)) { reset_all(); eof = true; return false; }
+        if (!std::getline(std::cin, line)) { reset_all(); eof = true; return 0; }
         auto w = vh::words(line);
-        if (w.empty()) return true;
-        if (w[0] == "case") { reset_all(); std::cout << line << "\n"; return true; }
+        if (w.empty()) return 1;
+        if (w[0] == "case") { reset_all(); std::cout << line << "\n"; return 1; }
         uint64_t n; int64_t sn;
         if (w[0] == "engine" && w.size() == 2 && (w[1] == "epoll" || w[1] == "select") && objs.empty()) {
             // only as the first op of a case: switch the back-end (leave this loop, start the other)
             std::cout << "P engine=" << w[1] << "\n";
-            if (w[1] != engine) { next_engine = w[1]; return false; }
-            return true;
+            if (w[1] != engine) { next_engine = w[1]; return 0; }
+            return 1;
         }
         bool is_pool_op = (w[0] == "pafter" || w[0] == "pevery" || w[0] == "pcancel" || w[0] == "pcleanup" || w[0] == "pat" || w[0] == "wall");
         bool is_plain_op = (w[0] == "new" || w[0] == "init" || w[0] == "en" || w[0] == "dis" || w[0] == "del");
-        if ((is_pool_op && mode == 1) || (is_plain_op && mode == 2)) { std::cout << "bad-op\n"; return true; }
+        bool is_wide_op = (w[0] == "wnew" || w[0] == "winit" || w[0] == "wen" || w[0] == "wdis" || w[0] == "wdel");
+        if ((is_pool_op && mode != 0 && mode != 2) || (is_plain_op && mode != 0 && mode != 1) || (is_wide_op && mode != 0 && mode != 3)) { std::cout << "bad-op\n"; return 1; }
         if (w[0] == "new" && w.size() == 2) {
             std::vector<Act> sc;
-            if (!parse_script(w[1], sc, objs.size(), false)) { std::cout << "bad-op\n"; return true; }
+            if (!parse_script(w[1], sc, objs.size(), false)) { std::cout << "bad-op\n"; return 1; }
             mode = 1;
             make_plain(sc);
             std::cout << "P ret=1 en=" << bits() << "\n";
-        } else if ((w[0] == "pafter" || w[0] == "pevery") && w.size() == 3 && vh::to_u64(w[1], n) && n >= 1 && n <= 100000) {
+        } else if ((w[0] == "pafter" || w[0] == "pevery") && w.size() == 3 && digits_ok(w[1]) && vh::to_u64(w[1], n) && n >= 1 && n <= MAXMS) {
             std::vector<Act> sc;
-            if (!parse_script(w[2], sc, 0, true)) { std::cout << "bad-op\n"; return true; }
+            if (!parse_script(w[2], sc, 0, true)) { std::cout << "bad-op\n"; return 1; }
             mode = 2;
             bool ok = make_pool(w[0] == "pafter" ? 'a' : 'e', n, sc);
             std::cout << "P ret=" << (ok ? 1 : 0) << " en=" << bits() << "\n";
@@ -224,7 +288,7 @@ int main(int argc, char **argv) {
             // doAt(time point = case's wall epoch + n ms); only time points 1..100000 ms ahead of the system clock
             std::vector<Act> sc;
             int64_t ahead = (int64_t)n - (vt::wall_ms() - wall0);
-            if (!parse_script(w[2], sc, 0, true) || ahead < 1 || ahead > 100000) { std::cout << "bad-op\n"; return true; }
+            if (!parse_script(w[2], sc, 0, true) || ahead < 1 || ahead > 100000) { std::cout << "bad-op\n"; return 1; }
             mode = 2;
             bool ok = make_pool('t', (uint64_t)(wall0 + (int64_t)n), sc);
             std::cout << "P ret=" << (ok ? 1 : 0) << " en=" << bits() << "\n";
@@ -239,12 +303,32 @@ int main(int argc, char **argv) {
             pool->cleanup(); mode = 2;
             for (size_t i = 0; i < objs.size(); ++i) if (pool_kind[i]) pool_alive[i] = false;
             std::cout << "P ret=1 en=" << bits() << "\n";
-        } else if (w[0] == "adv" && w.size() == 2 && vh::to_u64(w[1], n) && n <= 100000) {
+        } else if (w[0] == "adv" && w.size() == 2 && digits_ok(w[1]) && vh::to_u64(w[1], n) && n <= CLOCKMAX && (uint64_t)vt::mono_ms() + n <= CLOCKMAX) {
             vt::advance_ms((int64_t)n);
             pending_adv = true;                              // timers fire in the next pass; then we report
+        } else if ((w[0] == "idle" || w[0] == "idlex") && w.size() == 2 && digits_ok(w[1]) && vh::to_u64(w[1], n) && n <= CLOCKMAX && (uint64_t)vt::mono_ms() + n <= CLOCKMAX) {
+            idle_adv = (int64_t)n; idle_armed = true;        // no next-function pending: getWaitTime() is asked for real
+            idle_eintr = (w[0] == "idlex");
+            pending_adv = true;
+            return 2;
+        } else if (w[0] == "wnew" && w.size() == 1) {
+            mode = 3;
+            make_plain(std::vector<Act>());
+            pending_line = "P ret=1 en=" + bits() + "\n";
+        } else if (w[0] == "winit" && w.size() == 4 && w[2].size() <= 20 && vh::to_i64(w[2], sn) && vh::to_u64(w[1], n) && n < objs.size()
+                   && (w[3] == "o" || w[3] == "p") && sn >= -(int64_t)MAXMS && sn <= (int64_t)MAXMS && !(sn == 0 && w[3] == "p")) {
+            Act a; a.kind = 'i'; a.j = n; a.ms = 0; a.sms = sn; a.wide = true; a.oneshot = (w[3] == "o");
+            mode = 3;
+            int r = apply(a) ? 1 : 0;
+            pending_line = "P ret=" + std::to_string(r) + " en=" + bits() + "\n";
+        } else if ((w[0] == "wen" || w[0] == "wdis" || w[0] == "wdel") && w.size() == 2 && vh::to_u64(w[1], n) && n < objs.size()) {
+            Act a; a.kind = w[0] == "wen" ? 'e' : (w[0] == "wdis" ? 'd' : 'x'); a.j = n; a.ms = 0; a.oneshot = false;
+            mode = 3;
+            int r = apply(a) ? 1 : 0;
+            pending_line = "P ret=" + std::to_string(r) + " en=" + bits() + "\n";
         } else if (w[0] == "init" && w.size() == 4) {
             Act a;
-            if (!parse_act("i" + w[1] + ":" + w[2] + ":" + w[3], a) || a.j >= objs.size()) { std::cout << "bad-op\n"; return true; }
+            if (!parse_act("i" + w[1] + ":" + w[2] + ":" + w[3], a) || a.j >= objs.size()) { std::cout << "bad-op\n"; return 1; }
             mode = 1;
             std::cout << "P ret=" << (apply(a) ? 1 : 0) << " en=" << bits() << "\n";
         } else if ((w[0] == "en" || w[0] == "dis" || w[0] == "del") && w.size() == 2 && vh::to_u64(w[1], n) && n < objs.size()) {
@@ -254,9 +338,10 @@ int main(int argc, char **argv) {
         } else {
             std::cout << "bad-op\n";
         }
-        return true;
+        return 1;
     };
-    drv.run();
+    post_step();
+    loop->runLoop(Loop::Mode::kForever);
     delete pool; pool = nullptr;
     delete loop;
   }
